@@ -22,7 +22,7 @@ var DefaultModelOptions = []resource.Option{
 	WithActiveModeOption(resource.WithNoDuplicates()),
 	WithModeOption(resource.WithNoDuplicates()),
 	WithClock(clock.Real()),
-	WithRNG(rand.New(rand.NewSource(rand.Int63()))),
+	// the default source of randomness is created per model in calcModelArgs: a *rand.Rand must not be shared
 }
 var defaultInitialVoltage float32 = 240
 
@@ -104,6 +104,8 @@ func WithRNG(rng *rand.Rand) resource.Option {
 func calcModelArgs(opts ...resource.Option) modelArgs {
 	args := new(modelArgs)
 	args.apply(DefaultModelOptions...)
+	// each model gets its own generator, *rand.Rand is not safe for use by several models at once
+	args.apply(WithRNG(rand.New(rand.NewSource(rand.Int63()))))
 	args.apply(opts...)
 	return *args
 }
